@@ -352,6 +352,7 @@ class AsgiRun:
         self.zerocopy_events = 0
         self.scope: Dict[str, Any] = {}
         self.disconnected_at: Optional[float] = None
+        self.events_after_disconnect = 0
         self.send_times: List[float] = []
         self.returned_at: Optional[float] = None
 
@@ -549,10 +550,21 @@ async def run_asgi(
     async def send(message: Dict[str, Any]) -> None:
         if run.disconnected and send_raises_after_disconnect:
             raise OSError("client disconnected (injected)")
-        if send_delay:
-            await asyncio.sleep(send_delay)
+        # a real server's send() always gives other tasks a turn
+        await asyncio.sleep(send_delay if send_delay else 0)
         run.sends += 1
         run.send_times.append(asyncio.get_running_loop().time())
+        if run.disconnected:
+            # sent into the void: not delivered, but what the application emits must still be a legal
+            # continuation of the sequence
+            msg = dict(message) if isinstance(message, dict) else message
+            if isinstance(msg, dict) and "headers" in msg:
+                try:
+                    msg["headers"] = [tuple(h) for h in msg["headers"]]
+                except TypeError:
+                    pass
+            validator.feed(msg)
+            run.events_after_disconnect += 1
         if not run.disconnected:
             msg = dict(message) if isinstance(message, dict) else message
             if isinstance(msg, dict) and "headers" in msg:
